@@ -275,7 +275,10 @@ class DiscretizedSpace(TensorSpace):
             is_uniformly_weighted = (
                 np.allclose(bdry_fracs, 1.0) or
                 self.exponent == float('inf') or
-                not getattr(self.tspace, 'is_weighted', False))
+                (not getattr(self.tspace, 'is_weighted', False) and
+                 # A cell volume of 1 makes the default weighting
+                 # indistinguishable from "no weighting"
+                 not np.isclose(self.partition.cell_volume, 1.0)))
 
             self.__is_uniformly_weighted = is_uniformly_weighted
 
